@@ -39,7 +39,7 @@ def iexpr(g, atoms, depth=2):
     return "(%s %s %s)" % (a, op, b)
 
 
-def program(rnd):
+def program(rnd, atomic_p=0.45):
     g = G(rnd)
     r = rnd
     d = {}
@@ -52,7 +52,7 @@ def program(rnd):
     d["shared2d"] = d["shared"] and d["NI1"] > 1 and r.random() < 0.5
     d["excl"] = r.random() < 0.55
     d["exclf"] = r.random() < 0.25
-    d["atomic"] = r.random() < 0.45
+    d["atomic"] = r.random() < atomic_p
     d["dim"] = r.random() < 0.25
     d["restrict"] = r.random() < 0.4
     d["maxinner"] = r.random() < 0.2
@@ -199,13 +199,21 @@ def _phase_body(d, ph, ref, ind):
                 L.append(pad + "}")
         elif kd == "atomic":
             _, op, idx, val, guarded = s
-            st = "%scnt[%s] %s %s;" % ("" if ref else "@atomic ", idx, op, _subst(val, d, ref))
+            at, v = ("" if ref else "@atomic "), _subst(val, d, ref)
+            if op == "=+":        # general statement: OpenMP wraps it into a critical section (C21 only: GPU back ends reject it)
+                st = ["%scnt[%s] = cnt[%s] + %s;" % (at, idx, idx, v)]
+            elif op == "{=+}":    # one-statement block
+                st = [at + "{", "  cnt[%s] = (cnt[%s] - %s);" % (idx, idx, v), "}"]
+            elif op == "{2}":     # two-statement block
+                st = [at + "{", "  cnt[%s] += %s;" % (idx, v), "  cnt[((%s) + 1) %% %d] = cnt[((%s) + 1) %% %d] - 1;" % (idx, CN, idx, CN), "}"]
+            else:
+                st = ["%scnt[%s] %s %s;" % (at, idx, op, v)]
             if guarded:
                 L.append(pad + "if (g < n) {")
-                L.append(pad + "  " + st)
+                L += [pad + "  " + x for x in st]
                 L.append(pad + "}")
             else:
-                L.append(pad + st)
+                L += [pad + x for x in st]
         elif kd == "out":
             _, mode, ex, ex2, arr = s
             acc = _out_access(d, arr, ref)
